@@ -7,6 +7,10 @@ import CelmaVerif.Lemmas.SubGroupsExamples
   sub-group branch of `Handler::processArg` — a copy `subAI` of the cursor, its `++`, the loop over
   the sub handler's `evalSingleArgument`, `ai = subAI++` — is memory-safe for every argv, also when
   the sub-group argument is the last word.
+  How the plain theorems reach the tie: the driver runs `evalArgumentsT` / `groupsEvalT` for EVERY case;
+  `C04_eval_safe` (Props/C04.lean, about `evalArguments`) speaks about what the driver runs through
+  `C04_subgroup_conservative` (trees without sub-group arguments), trees with sub-group arguments are covered
+  by `C04_subgroup_eval_safe` directly.
 -/
 namespace CelmaVerif.Props.C04s
 open CelmaVerif CelmaVerif.Keys CelmaVerif.ProgArgs
